@@ -198,3 +198,65 @@ class ArrayWiring(_Wiring):
 
 
 CONTRACTS = [PandasSubsample, ContainerWiring, ArrayWiring]
+
+
+# ---------------------------------------------------------------------------------------
+# polars
+# ---------------------------------------------------------------------------------------
+from pyvc.theories import polars_lite as PP  # noqa: E402
+
+
+class PolarsSubsample(Contract):
+    """PolarsSchemaBackend.subsample against the same position-set spec.
+    (a) when all rows of the frame are pairwise different (by value)  -> must hold (residual)
+    (b) for arbitrary data (duplicate rows are rows too)              -> the property as stated
+    (c) never leaks an internal exception (sample= on a LazyFrame)"""
+
+    target = "pandera.backends.polars.base:PolarsSchemaBackend.subsample"
+    params = dict(self=T.Ref(None), check_obj=None, head=T.Opt(T.Nat), tail=T.Opt(T.Nat), sample=T.Opt(T.Nat), random_state=T.Opt(T.Int))
+
+    def setup(self, I):
+        PL.install(I)
+        PP.install(I)
+
+    def make_args(self):
+        a = {"self": T.Ref(None).fresh("self"), "check_obj": PP.FrameP.fresh("check_obj", columns=("a", "b"), kind="LazyFrame")}
+        for name in ("head", "tail", "sample", "random_state"):
+            a[name] = T.fresh_value(self.params[name], name)
+        return a
+
+    def requires(self, self_, check_obj, head, tail, sample, random_state):
+        n = check_obj.space.n
+        return And(*[v <= n for v in (head, tail, sample) if v is not None])
+
+    def call_target(self, I, fn, a):
+        return I.call(fn, [a["self"], a["check_obj"], a["head"], a["tail"], a["sample"], a["random_state"]], {})
+
+    def ensures(self, result, old, self_, check_obj, head, tail, sample, random_state):
+        if head is None and tail is None and sample is None:
+            return {"no_option_returns_the_object_itself": result is check_obj}
+        out = {"same_base": isinstance(result, PP.FrameP) and result.space is check_obj.space}
+        if not out["same_base"]:
+            return out
+        i = z3.Int(cur().fresh_name("row"))
+        n = check_obj.space.n.z
+        parts = []
+        if head is not None:
+            parts.append(i < head.z)
+        if tail is not None:
+            parts.append(i >= n - tail.z)
+        spec = z3.And(check_obj.sel(i), z3.Or(*parts)) if parts else check_obj.sel(i)
+        same = SBool(result.sel(i) == spec)
+        a, b = z3.Int(cur().fresh_name("a")), z3.Int(cur().fresh_name("b"))
+        eqrow = z3.And(*[z3.Or(z3.And(c.null(a), c.null(b)), z3.And(z3.Not(c.null(a)), z3.Not(c.null(b)), core.as_z3_bool(py_eq(c.at(a), c.at(b)))))
+                         for c in check_obj.cols.values()])
+        distinct = SBool(z3.ForAll([a, b], z3.Implies(z3.And(check_obj.sel(a), check_obj.sel(b), a != b), z3.Not(eqrow))))
+        out["positions_given_distinct_rows"] = Implies(distinct, same)
+        out["positions_for_any_data"] = same
+        return out
+
+    def on_raise(self, exc, old, **a):
+        return {}
+
+
+CONTRACTS.append(PolarsSubsample)
